@@ -241,8 +241,8 @@ def Sink.write (s : Sink) (data : Bytes) : Sink × Bytes :=
         | some (kept, bl) =>
           if 100 ≤ h.status ∧ h.status < 200 then
             ({ s with phase := .waitingResponse [],
-                      client := if s.ver.isH1 then { s.client with interims := s.client.interims ++ [h.status] } else s.client,
-                      fakeUnsent := !tail.isEmpty }, tail)
+                      client := if s.ver.isH1 then { s.client with interims := s.client.interims ++ [h.status] } else s.client },
+             tail)
           else
             let eof := bl == some (.determined 0)
             let s := { s with client := { s.client with head := some (h.status, eof, kept) } }
@@ -290,11 +290,13 @@ def Sink.write (s : Sink) (data : Bytes) : Sink × Bytes :=
     else if terminating then (clientEof { s with phase := .idle }, [])
     else ({ s with phase := .chunkPrefix [] }, rest)
 
-/-- `wait_writable` as the pipe sees it: `false` = error (the pipe ends) -/
+/-- `wait_writable` as the pipe sees it: `false` = error (the pipe ends). While waiting for a
+response (bytes were handed back after an interim response) it waits for the client side to take
+that interim response, which it eventually does. -/
 def Sink.waitWritable (s : Sink) : Sink × Bool :=
   if s.fakeUnsent then ({ s with fakeUnsent := false }, true)
   else match s.phase with
-    | .idle | .waitingResponse _ => (s, false)
+    | .idle => (s, false)
     | _ => (s, true)
 
 /-- `SimplexPipe::exchange` on one segment: write; while unsent, wait and write the rest.
